@@ -102,8 +102,8 @@ theorem single_no_double (P : Policy) (hP : P.ok) (c : Ctx) (hflag : c.flag = fa
       simp_all [Entry.noF64, fkNoF64, Entry.code, Entry.stored, Entry.bound, inputValue]
 
 -- non-vacuity: the hypotheses are met by a python-float literal in a loop body …
-example : (Entry.viaLiteral (some .f32) none .f32).noF64 = true := by decide
-example : (Entry.viaLiteral (some .f32) none .f32).stored refP ⟨false, true, true⟩ = some .f32 := by
+example : (Entry.viaLiteral (some .f32) none .f64).noF64 = true := by decide
+example : (Entry.viaLiteral (some .f32) none .f64).stored refP ⟨false, true, true⟩ = some .f32 := by
   decide
 -- … and the conclusion genuinely fails once a float64 array is handed in (flag off!)
 example : isDouble ((Entry.viaBindConst none .f64).code refP ⟨false, false, false⟩) = true := by decide
